@@ -110,6 +110,9 @@ def swarm_knobs(rng):
         "call_depth": rng.choice([1, 2, 3, 5]),
         "aio_p": rng.choice([0, 0, 0.1, 0.25]),
     }
+    # drawn last so that the program pool (generated from the knobs above) stays the same
+    kn["mutate_p"] = rng.choice([0, 0, 0.12, 0.3])
+    kn["shared_p"] = rng.choice([0, 0, 0.15, 0.4]) if kn["mutate_p"] else 0
     return kn
 
 
@@ -362,6 +365,11 @@ def execute(plan):
         probes["generator still suspended at session end"] = 1
     if any(not TT.definite(lp, lp.funcs[c.fid]) for c in comps):
         probes["call of unknown resolvability"] = 1
+    if any(rec[0] == "MU" for rec in J):
+        probes["argument container mutated in place after the call started"] = 1
+        mutated = {id(rec[2]) for rec in J if rec[0] == "MU"}
+        if sum(1 for rec in J if rec[0] == "E" and any(id(v) in mutated for v in rec[3].values())) > 1:
+            probes["one container object passed to several calls and mutated in between"] = 1
     return {
         "violations": V,
         "digest": event_digest(lp, J, logger),
